@@ -69,6 +69,10 @@ type Ctx struct {
 	strIDs   map[string]int
 
 	named         map[string]Term // hash-consing table of named terms
+	refDefs       map[string]string // definitions of named reference terms
+	allocMemo     map[string]bool
+	brk0          string
+	declBytes     int
 	timeoutFactor float64 // contract option `opt slow=<factor>`: solver time multiplier for a known-heavy function
 	sizeHints  string
 	nilHints   string
@@ -343,6 +347,14 @@ func (c *Ctx) Name(hint string, t Term) Term {
 			return App(SSlice, "mk-slice", comps...)
 		}
 	}
+	// size caps (a VC that outgrows them is a tool limit of this function, reported as such — never a silent pass)
+	if len(t.S) > 2<<20 {
+		panic(fmt.Sprintf("verification condition term exceeds the 2 MiB cap (%d bytes): the function needs a loop invariant or a callee contract", len(t.S)))
+	}
+	c.declBytes += len(t.S)
+	if c.declBytes > 192<<20 {
+		panic("verification conditions exceed the 192 MiB cap: the function needs a loop invariant or a callee contract")
+	}
 	// hash-consing: a term already named keeps its name (identical computations become syntactically identical)
 	if c.named == nil {
 		c.named = map[string]Term{}
@@ -355,7 +367,42 @@ func (c *Ctx) Name(hint string, t Term) Term {
 	c.decls = append(c.decls, fmt.Sprintf("(define-fun %s () %s %s)", n, t.Sort, t.S))
 	r := Term{S: n, Sort: t.Sort, tree: t.tree}
 	c.named[t.S] = r
+	if t.Sort == SRef {
+		if c.refDefs == nil {
+			c.refDefs = map[string]string{}
+		}
+		c.refDefs[n] = t.S
+	}
 	return r
+}
+
+// AllocatedHere reports whether the reference term s is, syntactically, the bump pointer brk0 advanced a
+// non-negative number of times (the engine only ever advances brk by 1 after assuming it is below 2^32-16): such a
+// reference denotes an object allocated by the function under verification, never one that existed at entry.
+func (c *Ctx) AllocatedHere(s string) bool {
+	if s == c.brk0 && s != "" {
+		return true
+	}
+	if v, ok := c.allocMemo[s]; ok {
+		return v
+	}
+	if c.allocMemo == nil {
+		c.allocMemo = map[string]bool{}
+	}
+	res := false
+	if d, ok := c.refDefs[s]; ok {
+		res = c.AllocatedHere(d)
+	} else if strings.HasPrefix(s, "(ite ") {
+		if p := splitArgs(s); len(p) == 4 {
+			res = c.AllocatedHere(p[2]) && c.AllocatedHere(p[3])
+		}
+	} else if strings.HasPrefix(s, "(bvadd ") {
+		if p := splitArgs(s); len(p) == 3 && strings.HasPrefix(p[2], "#x0000") {
+			res = c.AllocatedHere(p[1])
+		}
+	}
+	c.allocMemo[s] = res
+	return res
 }
 
 func (c *Ctx) DeclRaw(s string) { c.decls = append(c.decls, s) }
@@ -429,6 +476,15 @@ func (c *Ctx) Script(inst Instance, forModel bool, extra string) string {
 	for ai < inst.NAssum {
 		fmt.Fprintf(&sb, "(assert %s)\n", c.assums[ai].T.S)
 		ai++
+	}
+	if forModel {
+		// initial-heap constants first mentioned after this obligation was recorded (model queries and size hints refer to them)
+		for i := inst.Prefix; i < len(c.decls); i++ {
+			if strings.HasPrefix(c.decls[i], "(declare-const heap0_") {
+				sb.WriteString(c.decls[i])
+				sb.WriteByte('\n')
+			}
+		}
 	}
 	for _, d := range c.lateDecls {
 		sb.WriteString(d)
